@@ -35,6 +35,13 @@ func TestVerifC09EndToEnd(t *testing.T) {
 		defer os.RemoveAll(dir)
 		telemetry.Default = telemetry.NewDir(dir)
 		vuSetMode(dir, "local")
+		// the zone of the process that counts and uploads (weeks and days are UTC whatever the local zone is)
+		if lz := rapid.SampledFrom([]int{0, 0, -8 * 3600, -12 * 3600, 14 * 3600, 5*3600 + 1800}).Draw(t, "processZone"); lz != 0 {
+			saved := time.Local
+			time.Local = time.FixedZone("local", lz)
+			defer func() { time.Local = saved }()
+			vstats.Label("processInOtherZone")
+		}
 		digit := rapid.IntRange(0, 6).Draw(t, "weekendDigit")
 		os.WriteFile(filepath.Join(dir, "local", "weekends"), []byte(fmt.Sprintf("%d\n", digit)), 0666)
 		day0 := rapid.IntRange(vmodel.DaysFromCivil(1990, 1, 1), vmodel.DaysFromCivil(2090, 12, 1)).Draw(t, "day0")
